@@ -50,6 +50,7 @@ class Machine(object):
         from . import c09_segmentation, c10_lifecycle
         self.tier = tier
         self.drivers = {"C09": c09_segmentation.Machine(), "C10": c10_lifecycle.Machine()}
+        self.drivers["C09"].allow_huge = False
         self.sample = 24 if tier == "quick" else 128
         self.logbase = os.environ.get("VSIM_ASAN_LOG")
         if self.logbase:
